@@ -14,8 +14,8 @@ import (
 
 func init() {
 	fw.Register(&fw.Check{
-		ID: "C11",
-		Rule: "cases: documents with 0..3 keys and services plus sibling members sharing a name prefix; (a) the complete grid of single RFC 6902 operations: 6 kinds x path x from over protected members, their elements and sub-members, prefix siblings, escaped tokens, root, '/', pointers without a leading slash or with leading garbage, trailing slashes, array indices 0 / - / out of range; (b) random sequences of 2..3 operations (e.g. copy then modify below the copy), alone and after other patches. Oracle: invariant - whenever patch validation accepts and ApplyPatches succeeds, the publicKey and service members are deeply equal before and after. distinct = distinct (kind, path class, from class, accepted?, applied?) tuples.",
+		ID:          "C11",
+		Rule:        "cases: documents with 0..3 keys and services plus sibling members sharing a name prefix; (a) the complete grid of single RFC 6902 operations: 6 kinds x path x from over protected members, their elements and sub-members, prefix siblings, escaped tokens, root, '/', pointers without a leading slash or with leading garbage, trailing slashes, array indices 0 / - / out of range; (b) random sequences of 2..3 operations (e.g. copy then modify below the copy), alone and after other patches. Oracle: invariant - whenever patch validation accepts and ApplyPatches succeeds, the publicKey and service members are deeply equal before and after. distinct = distinct (kind, path class, from class, accepted?, applied?) tuples.",
 		Assumptions: []string{"deep JSON equality of the two protected members is the observable for 'altered'"},
 		Require:     []string{"validated", "validated-and-applied", "refused-by-validator", "grid"},
 		Run:         runC11,
